@@ -18,8 +18,51 @@ def span_origin_ok(o, extra=()):
     k = o[0]
     if k == "call":
         c = o[1] or ""
-        return c.endswith(("::text_range", "::text_start", "TextRange::new", "TextRange::empty", "TextRange::start", "TextRange::end", "::try_into", "::try_from", "::from", "::into", "::syntax", "::unwrap")) or c in extra
+        return c.endswith(("LexedStr::text_range", "LexedStr::text_start", "SyntaxNode::text_range", "SyntaxToken::text_range", "::text_range", "::text_start", "TextRange::empty", "TextRange::start", "TextRange::end", "::syntax")) or c in extra
     return k in ("arg", "const", "agg", "fnitem")
+
+
+PASS_THROUGH = ("TextRange::new", "TextSize::new", "TextSize::from", "::try_into", "::try_from", "::from", "::into", "::unwrap", "Range<Idx>::new", "TextRange::at", "TextRange::cover")
+
+
+def deep_origins(prog, b, operand):
+    """origins(), continued through range/offset constructors: the operands of TextRange::new(..), try_into(), ..
+    are traced as well, so that a range assembled from a non-boundary value is seen."""
+    out, work, seen = set(), [operand], set()
+    while work:
+        op = work.pop()
+        for o in origins(prog, b, op):
+            if o in seen:
+                continue
+            seen.add(o)
+            if o[0] == "call" and (o[1] or "").endswith(PASS_THROUGH) and o[2] is not None and b.blocks[o[2]].term.get("args"):
+                work.extend(b.blocks[o[2]].term["args"])
+            else:
+                out.add(o)
+    return out
+
+
+def who_inserts(prog, R, rule):
+    """A semantic diagnostic carries the range of a node of the file being analysed; it is valid only relative to
+    that file's text.  Who-may-call rule: SemanticErrorList::insert is reached only through the Context (whose list
+    is the one of the file under analysis: C18.2 checks the swap pairing); no other code inserts into a list it
+    holds itself (e.g. the list of an included file)."""
+    ins = "oq3_semantics::semantic_error::SemanticErrorList::insert"
+    callers = sorted(k for k, b in prog.bodies.items() for _, t in b.calls() if (b.callee_of(t) or "") == ins)
+    bad = [k for k in callers if not k.startswith("oq3_semantics::context::Context::")]
+    R.ob(rule, "SemanticErrorList::insert is called only by Context methods", bool(callers) and not bad, prog.body(bad[0]).at if bad else "",
+         f"{len(callers)} call sites, all in Context" if not bad else f"{[inventory.ishort(k) for k in bad]} insert(s) a diagnostic into a list other than the context's current one: its range refers to a node of another file")
+    # and the Context inserts into its own field
+    n, okf = 0, True
+    for k in callers:
+        if k.startswith("oq3_semantics::context::Context::"):
+            b = prog.body(k)
+            for _, t in b.calls():
+                if (b.callee_of(t) or "") == ins:
+                    n += 1
+                    o = origins(prog, b, t["args"][0], max_depth=4)
+                    okf = okf and all(x[0] in ("arg", "field") or (x[0] == "call" and "deref" in (x[1] or "")) for x in o)
+    R.ob(rule, "Context inserts into its own semantic_errors list", okf and n >= 4, "", f"{n} insert sites inside Context; receiver originates from self")
 
 
 def run(prog, R):
@@ -76,7 +119,7 @@ def run(prog, R):
             if c in ctor:
                 n += 1
                 arg = t["args"][1]
-                o = origins(prog, b, arg)
+                o = deep_origins(prog, b, arg)
                 arith = [x for x in o if x[0] == "binop" or (x[0] == "call" and (x[1] or "").endswith(("::add", "::sub", "::add_assign")))]
                 bad = [x for x in o if not span_origin_ok(x) and x not in arith]
                 allow_arith = k == "oq3_syntax::validation::validate_literal::{closure#0}"
@@ -138,6 +181,7 @@ def run(prog, R):
                     R.ob("C12.2-span-provenance", "aggregate:" + inventory.ishort(k), k in ctor or k.startswith("<oq3_syntax::syntax_error::SyntaxError as"), s_["at"], "SyntaxError value built here")
     else:
         R.ob("ANCHOR", "SyntaxError", False)
+    who_inserts(prog, R, "C12.3-diagnostic-goes-to-the-current-file")
     try:
         import c12_sema
         c12_sema.run(prog, R)
